@@ -21,7 +21,8 @@ EXPLANATION = (
     "2*n_leaves-1 / 2*n_leaves, which equals those ids under the inductive invariant n_nodes = 2*n_leaves-1; (f) predict "
     "routes with the same comparator (<= threshold -> left child) and score is the objective of the predicted labels. "
     "Not decided: contiguity of the cluster labels, depth arithmetic beyond the guards.")
-ADOPT = [("C18", ["C18-d"], "predict reproduces the partition built by fit only if both compare the same floating-point values with the thresholds")]
+ADOPT = [("C08", ["C08-f"], "the tree reproduces its own partition only if every recorded split is applied to the assignment matrices as recorded"),
+         ("C18", ["C18-d"], "predict reproduces the partition built by fit only if both compare the same floating-point values with the thresholds")]
 ASSUMPTIONS = ["np.argsort sorts ascending", "validated hyper-parameter domains (max_depth >= 1, min_samples_leaf >= 1)"]
 
 
